@@ -6,6 +6,7 @@ import (
 	"fmt"
 	"math/rand"
 	"os"
+	"strings"
 	"sync"
 	"time"
 
@@ -155,9 +156,14 @@ func mintAPReq(w *ktWorld, c map[string]string, s c01Settings, r *rand.Rand, ori
 		as.cname = []string{"mallory-" + uniq}
 	case "empty":
 		as.cname = []string{}
+	case "caseOnly":
+		as.cname = []string{"USER-" + uniq}
 	}
 	if c["crealm"] == "differs" {
 		as.crealm = "EVIL.TEST.GOKRB5"
+	}
+	if c["crealm"] == "caseOnly" {
+		as.crealm = strings.ToLower(ts.crealm)
 	}
 	usec := time.Duration(1+r.Intn(999998)) * time.Microsecond
 	switch c["ctime"] {
